@@ -898,4 +898,194 @@ example (orc : Oracles) (l : List (Option Str × List Byte)) :
   exact ⟨h1, by simpa [headerBytes, examplePipeline] using h2⟩
 
 
+/-! ### H: policy `stdout` — the reports are interleaved with the rows -/
+
+/-- what is written, chunk by chunk: `(true, bytes)` is an error report, `(false, bytes)` the rows that
+one step of the chain delivered -/
+abbrev Chunks := List (Bool × List Byte)
+
+def Chunks.bytes (ch : Chunks) : List Byte := ch.flatMap (·.2)
+/-- the output with the report chunks removed -/
+def Chunks.rowPart (ch : Chunks) : List Byte := (ch.filter (fun x => !x.1)).flatMap (·.2)
+/-- the report chunks, in order -/
+def Chunks.reports (ch : Chunks) : List (List Byte) := (ch.filter (·.1)).map (·.2)
+
+theorem Chunks.bytes_append (a b : Chunks) : Chunks.bytes (a ++ b) = a.bytes ++ b.bytes := by
+  simp [Chunks.bytes]
+theorem Chunks.rowPart_append (a b : Chunks) : Chunks.rowPart (a ++ b) = a.rowPart ++ b.rowPart := by
+  simp [Chunks.rowPart]
+theorem Chunks.reports_append (a b : Chunks) : Chunks.reports (a ++ b) = a.reports ++ b.reports := by
+  simp [Chunks.reports]
+
+/-- the read loop under policy `stdout` -/
+theorem readLoop_stdout (orc : Oracles) (c : Cfg) (p : Pipeline)
+    (hpol : c.onError = .stdout) (hna : NoAbort orc p.cfgs)
+    (fuel : Nat) (r : Reader) (inFile : Nat) (s : RunState)
+    (hw : Unbounded s.out) (hs : Shape p.cfgs s.sts) (hwf : WF r) (hcl : Clean r) (hf : μ r + 1 ≤ fuel) :
+    ∃ (s' : RunState) (r' : Reader) (ch : Chunks),
+      readLoop orc c p fuel r inFile s = .ok (s', r', (loopRes orc c p fuel r inFile s).2.2)
+      ∧ s'.sts = (loopRes orc c p fuel r inFile s).1
+      ∧ s'.out = wappend s.out ch.bytes
+      ∧ ch.rowPart = (loopRes orc c p fuel r inFile s).2.1.flatMap (sinkBytes p.sink p.sinkLen)
+      ∧ ch.reports = (errsOf (evalT orc) c p.cfgs fuel r inFile s.index s.sts).map reportBytes
+      ∧ s'.err = s.err
+      ∧ ((loopRes orc c p fuel r inFile s).2.2 = .cont →
+          s'.index = s.index + (ctxsOf c fuel r inFile s.index).length)
+      ∧ Shape p.cfgs s'.sts := by
+  induction fuel generalizing r inFile s with
+  | zero => omega
+  | succ fuel ih =>
+    have hm := nextJson_mono r
+    have hc2 := (nextJson_clean r hcl).2
+    rcases hn : r.nextJson with ⟨res, r'⟩
+    rw [hn] at hm hc2
+    cases res with
+    | error e =>
+      have hp := nextJson_progress r hwf hn (by intro h; cases h)
+      have hrec := nextJson_canRecover hcl hn
+      simp only [loopRes, readLoop, ctxsOf, errsOf, hn, hrec, if_true]
+      have hpe := put_unbounded hw (reportBytes e)
+      obtain ⟨s', r'', ch, h1, h2, h3, h4, h5, h6, h7, h8⟩ :=
+        ih r' inFile { s with out := wappend s.out (reportBytes e) } hpe.2 hs (hm.wf hwf) hc2 (by omega)
+      refine ⟨s', r'', (true, reportBytes e) :: ch, ?_, h2, ?_, ?_, ?_, h6, h7, h8⟩
+      · simpa [hpol, hpe.1, hpe.2.2] using h1
+      · rw [h3]; simp [Chunks.bytes, wappend_wappend]
+      · rw [← h4]; simp [Chunks.rowPart]
+      · simp [Chunks.reports] at h5 ⊢
+        exact h5
+    | ok o =>
+      cases o with
+      | none =>
+        simp only [loopRes, readLoop, ctxsOf, errsOf, hn, feedBrk]
+        exact ⟨s, r', [], rfl, rfl, by simp [Chunks.bytes, wappend_nil], rfl, rfl, rfl, fun _ => rfl, hs⟩
+      | some v =>
+        have hp := nextJson_progress r hwf hn (by intro h; cases h)
+        simp only [loopRes, readLoop, ctxsOf, errsOf, hn]
+        split
+        · exact ih r' inFile s hw hs (hm.wf hwf) hc2 (by omega)
+        · obtain ⟨p1, p2⟩ := process_pure orc p.sink p.sinkLen p.cfgs s.sts s.out
+            { input := v, ictx := some { startLoc := r.loc, endLoc := r'.loc, fileIndex := inFile, index := s.index } }
+            hna hw hs
+          rcases hP : processP (evalT orc) p.cfgs s.sts
+            { input := v, ictx := some { startLoc := r.loc, endLoc := r'.loc, fileIndex := inFile, index := s.index } }
+            with ⟨s1, o1, d⟩
+          rw [hP] at p1 p2
+          cases d with
+          | brk =>
+            rw [feedBrk_cons_brk hP]
+            simp only [p1]
+            refine ⟨_, r', [(false, o1.flatMap (sinkBytes p.sink p.sinkLen))], rfl, rfl, ?_, ?_, rfl, rfl,
+              (fun h => by cases h), p2⟩
+            · simp [Chunks.bytes]
+            · simp [Chunks.rowPart]
+          | cont =>
+            rw [feedBrk_cons_cont hP]
+            simp only [p1]
+            obtain ⟨s', r'', ch, h1, h2, h3, h4, h5, h6, h7, h8⟩ :=
+              ih r' (inFile + 1) { s with sts := s1, out := wappend s.out (o1.flatMap (sinkBytes p.sink p.sinkLen)),
+                                          index := s.index + 1 }
+                (hw.wappend _) p2 (hm.wf hwf) hc2 (by omega)
+            refine ⟨s', r'', (false, o1.flatMap (sinkBytes p.sink p.sinkLen)) :: ch, h1, h2, ?_, ?_, ?_, h6, ?_, h8⟩
+            · rw [h3]; simp [Chunks.bytes, wappend_wappend]
+            · simp only [loopRes] at h4
+              simp [Chunks.rowPart] at h4 ⊢
+              rw [h4]
+            · simp [Chunks.reports] at h5 ⊢
+              exact h5
+            · intro hd
+              rw [h7 hd]
+              simp only [List.length_cons]
+              omega
+
+/-- the file loop under policy `stdout` -/
+theorem readSources_stdout (orc : Oracles) (c : Cfg) (p : Pipeline)
+    (hpol : c.onError = .stdout) (hna : NoAbort orc p.cfgs)
+    (sources : List Source) (s : RunState)
+    (hw : Unbounded s.out) (hs : Shape p.cfgs s.sts) (hcl : CleanIO sources) :
+    ∃ (s' : RunState) (ch : Chunks), readSources orc c p sources s = .ok s'
+      ∧ s'.sts = (srcRes orc c p sources s).1
+      ∧ s'.out = wappend s.out ch.bytes
+      ∧ ch.rowPart = (srcRes orc c p sources s).2.1.flatMap (sinkBytes p.sink p.sinkLen)
+      ∧ ch.reports = (errsOfSources (evalT orc) c p.cfgs sources s.index s.sts).map reportBytes
+      ∧ s'.err = s.err
+      ∧ Shape p.cfgs s'.sts := by
+  induction sources generalizing s with
+  | nil =>
+    refine ⟨s, [], rfl, rfl, ?_, ?_, ?_, rfl, hs⟩
+    · simp [Chunks.bytes, wappend_nil]
+    · simp [srcRes, ctxsOfSources, feedBrk, Chunks.rowPart]
+    · simp [errsOfSources, Chunks.reports]
+  | cons src rest ih =>
+    obtain ⟨s1, r1, ch1, h1, h2, h3, h4, h5, h6, h7, h8⟩ :=
+      readLoop_stdout orc c p hpol hna (src.items.length + 2) (Reader.ofItems src.items src.name) 0 s hw hs
+        (wf_ofItems _ _) hcl.head (by rw [μ_ofItems]; omega)
+    simp only [srcRes, readSources, ctxsOfSources, errsOfSources, h1]
+    simp only [loopRes] at h1 h2 h3 h4 h5 h7
+    rcases hd : (feedBrk (processP (evalT orc) p.cfgs) s.sts
+        (ctxsOf c (src.items.length + 2) (Reader.ofItems src.items src.name) 0 s.index)).2.2 with _ | _
+    · have hw1 : Unbounded s1.out := by rw [h3]; exact hw.wappend _
+      obtain ⟨s', ch2, g1, g2, g3, g4, g5, g6, g7⟩ :=
+        ih { s1 with pulled := s1.pulled ++ [r1.pulled] } hw1 h8 hcl.tail
+      simp only [srcRes] at g1 g2 g3 g4 g5
+      have hidx := h7 hd
+      rw [feedBrk_append_cont _ _ _ _ hd]
+      simp only [show (Decision.cont = Decision.brk) = False from by simp, if_false]
+      refine ⟨s', ch1 ++ ch2, g1, ?_, ?_, ?_, ?_, by rw [g6, h6], g7⟩
+      · rw [g2, hidx, h2]
+      · rw [g3, h3, wappend_wappend, Chunks.bytes_append]
+      · rw [Chunks.rowPart_append, h4, g4, hidx, h2, List.flatMap_append]
+      · rw [Chunks.reports_append, h5, g5, hidx, h2, List.map_append]
+    · rw [feedBrk_append_brk _ _ _ _ hd]
+      simp only [if_true]
+      refine ⟨_, ch1, rfl, h2, h3, h4, ?_, h6, h8⟩
+      simp [h5]
+
+/-- C06 `policy_stdout`: under policy `stdout` the run succeeds as well; what it writes to stdout after the
+header is a sequence of chunks, some of them error reports; with the report chunks removed it is exactly
+the `ignore` output, and the report chunks are the reports of the recoverable errors met, in order -/
+theorem policy_stdout (orc : Oracles) (c : Cfg) (sources : List Source) (wOut wErr : Writer) (p : Pipeline)
+    (hpol : c.onError = .stdout) (hb : build orc c = .ok p)
+    (hna : NoAbort orc p.cfgs) (hw : Unbounded wOut) (hcl : CleanIO sources) (hh : ¬ HeaderMissing p) :
+    ∃ ch : Chunks,
+      (run orc c sources wOut wErr).result = .ok ()
+      ∧ (run orc c sources wOut wErr).stdout = wOut.out ++ headerBytes p ++ ch.bytes
+      ∧ ch.rowPart
+          = (specRows (evalT orc) p.cfgs p.sts (ctxsOfSources c sources 0)).flatMap (sinkBytes p.sink p.sinkLen)
+      ∧ ch.reports = (errsOfSources (evalT orc) c p.cfgs sources 0 p.sts).map reportBytes
+      ∧ (run orc c sources wOut wErr).stderr = wErr.out := by
+  obtain ⟨hi, hg, -, -⟩ := build_initial orc c p hb
+  obtain ⟨s', ch, g1, g2, g3, g4, g5, g6, g7⟩ :=
+    readSources_stdout orc c p hpol hna sources { sts := p.sts, out := wappend wOut (headerBytes p), err := wErr }
+      (hw.wappend _) hi.shape hcl
+  have hw' : Unbounded s'.out := by rw [g3]; exact (hw.wappend _).wappend _
+  have hcp := complete_pure orc p.sink p.sinkLen p.cfgs s'.sts s'.out hna hw' g7
+  have hspec := runP_eq_spec (evalT orc) hi hg (ctxsOfSources c sources 0)
+  refine ⟨ch ++ [(false, (completeP (evalT orc) p.cfgs s'.sts).flatMap (sinkBytes p.sink p.sinkLen))], ?_⟩
+  simp only [run, hb, sinkStart_unbounded p hw hh, g1, hcp]
+  refine ⟨trivial, ?_, ?_, ?_, ?_⟩
+  · simp [wappend_out, g3, Chunks.bytes, List.append_assoc]
+  · rw [Chunks.rowPart_append, g4, ← hspec, runP, List.flatMap_append, g2]
+    simp [Chunks.rowPart, srcRes]
+  · rw [Chunks.reports_append, g5]
+    simp [Chunks.reports]
+  · rw [g6]
+
+
 end Jawk.RunSpec
+
+/- axiom audit (all ⊆ {propext, Classical.choice, Quot.sound}):
+#print axioms Jawk.RunSpec.build_initial
+#print axioms Jawk.RunSpec.sinkStart_unbounded
+#print axioms Jawk.RunSpec.readLoop_spec
+#print axioms Jawk.RunSpec.readLoop_ignore
+#print axioms Jawk.RunSpec.readSources_spec
+#print axioms Jawk.RunSpec.run_ignore_spec
+#print axioms Jawk.RunSpec.run_headerMissing
+#print axioms Jawk.RunSpec.default_rows
+#print axioms Jawk.RunSpec.default_rows_stdin
+#print axioms Jawk.RunSpec.policy_stderr_same_rows
+#print axioms Jawk.RunSpec.policy_stdout
+#print axioms Jawk.RunSpec.concat_sources
+#print axioms Jawk.RunSpec.index_exact
+#print axioms Jawk.RunSpec.fileIndex_restarts
+-/
